@@ -70,6 +70,23 @@ MUTANTS = [
      'VineCopula.get_likelihood: for i in range(num_tree - 1)  (the last np.empty cell of `values` is summed unwritten)'),
     ('vlik_matrix_not_threaded', VINE, [('            uni_matrix = new_uni_matrix\n', '            new_uni_matrix = uni_matrix\n')],
      'VineCopula.get_likelihood: uni_matrix is never replaced (every tree reads the caller\'s row)'),
+    ('smp_tree1_wrong_end', VINE, [('edge.R == current and edge.L == visited[0]', 'edge.R == current and edge.R == visited[0]')],
+     '_sample_row, tree 1 search: `edge.R == current and edge.R == visited[0]`'),
+    ('smp_break_inside', VINE, [('                                    current_ind = edge.index\n                                break\n',
+                                 '                                    current_ind = edge.index\n                                    break\n')],
+     '_sample_row, trees >= 2: the `break` moved inside the subset test (the search goes on after a failed test)'),
+    ('smp_truncated_gt', VINE, [('                    if i >= self.truncated:\n', '                    if i > self.truncated:\n')],
+     '_sample_row: `if i > self.truncated: continue`'),
+    ('smp_first_level', VINE, [('                        if i == itr - 1:\n', '                        if i == itr:\n')],
+     '_sample_row: `if i == itr:` (the chain never starts from unis[current])'),
+    ('smp_cond_on_current', VINE, [('U = np.array([unis[visited[0]]])', 'U = np.array([unis[current]])')],
+     '_sample_row: the inverse is conditioned on unis[current]'),
+    ('smp_subset_direction', VINE, [('if condition.issubset(visit_set):', 'if visit_set.issubset(condition):')],
+     '_sample_row: `visit_set.issubset(condition)`'),
+    ('smp_clip_const', VINE, [('tmp = min(max(tmp, EPSILON), 0.99)', 'tmp = min(max(tmp, EPSILON), 0.999)')],
+     '_sample_row: the clip is min(max(tmp, EPSILON), 0.999)'),
+    ('smp_level_range', VINE, [('for i in range(itr - 1, -1, -1):', 'for i in range(itr - 1, 0, -1):')],
+     '_sample_row: for i in range(itr - 1, 0, -1)  (tree 1 is never inverted)'),
 ]
 
 PNT_BODY_OLD = ('            copula_theta = edge.theta\n', '            copula.theta = copula_theta\n')
@@ -86,6 +103,11 @@ HARMLESS = [
                               "    def get_likelihood(self, uni_matrix: 'np.ndarray') -> float:\n        \"\"\"Compute likelihood of the vine.\"\"\""),
                              ('        num_tree = len(self.trees)\n', '        num_tree: int = len(self.trees)\n')],
      'type annotations added to VineCopula.get_likelihood'),
+    ('h_sampler_locals', VINE, [('                                condition = set(edge.D)\n', '                                needed = set(edge.D)\n'),
+                                ('                                condition.add(edge.L)  # noqa: PD005\n', '                                needed.add(edge.L)\n'),
+                                ('                                condition.add(edge.R)  # noqa: PD005\n', '                                needed.add(edge.R)\n'),
+                                ('                                if condition.issubset(visit_set):\n', '                                if needed.issubset(visit_set):\n')],
+     '_sample_row: the local `condition` renamed'),
 ]
 
 
